@@ -79,7 +79,7 @@ Print Assumptions C08_text_classified.
    digit limit, floats given by their repr (float_ok), strs without a high surrogate directly followed by
    a low one (WfStr), distinct keys, nesting within the recursion budget *)
 Theorem C08_json_roundtrip :
-  forall limit v, wf v -> depth v <= limit -> loads limit (print_compact v) = LValue v.
+  forall limit v, wf FFloat v -> depth v <= limit -> loads limit (print_compact v) = LValue v.
 Proof. exact loads_print. Qed.
 Print Assumptions C08_json_roundtrip.
 
